@@ -156,6 +156,14 @@ func runPortfolio(script string, dir string, name string, timeout time.Duration,
 			members = append(members, member{solvers[0], slicedFile, seed, true, solvers[0].name + "/sliced"})
 			members = append(members, member{solvers[2], slicedFile, seed, true, solvers[2].name + "/sliced"})
 		}
+		// strict slice (slice.go): only hypotheses about the discriminating heap components of the goal
+		if st, ok := sliceScriptStrict(script); ok {
+			sfile := filepath.Join(dir, name+".strict.smt2")
+			if err := os.WriteFile(sfile, []byte(st), 0o644); err == nil {
+				members = append(members, member{solvers[0], sfile, seed, true, solvers[0].name + "/strict"})
+				members = append(members, member{solvers[1], sfile, seed, true, solvers[1].name + "/strict"})
+			}
+		}
 	}
 	ch := make(chan r, len(members))
 	var wg sync.WaitGroup
